@@ -77,7 +77,7 @@ func runC05() *RunResult {
 	simrt.SetMode(simrt.ModeOff)
 
 	res := w.run()
-	w.progressVerdict(res)
+	// deadlock / step-budget aborts are C06's verdicts, not C05's: an aborted run is simply not judged
 	res.Cases = cases
 	return res
 }
